@@ -67,7 +67,7 @@ Section View.
 
   Notation ns_of := (ns_of nss).
   Notation wtr2_node := (wtr2_node nss enum_ids fmt_dec).
-  Notation x2d_node := (x2d_node nss parse_dec false).
+  Notation x2d_node := (x2d_node nss parse_dec false false).
   Notation matches := (matches nss).
   Notation candidates := (candidates nss).
   Notation value_okb := (value_okb enum_ids dec_ok).
@@ -207,6 +207,28 @@ Section View.
     - exact H.
     - apply andb_true_iff in H. destruct H as (H & _). apply andb_true_iff in H. destruct H as (H & _). exact H.
     - apply andb_true_iff in H. destruct H as (H & _). apply andb_true_iff in H. destruct H as (H & _). exact H.
+  Qed.
+
+  (** choice-free: nothing is hidden by the reader's Choose *)
+  Lemma wfs_guard_nil : forall k, wfs k = true -> sguard k = [].
+  Proof.
+    intros k H. pose proof (smeta_ok k H) as Hm. unfold meta_ok in Hm.
+    apply andb_true_iff in Hm. destruct Hm as (_ & Hg). unfold sguard.
+    destruct (nm_guard (smeta k)); [reflexivity | discriminate Hg].
+  Qed.
+  Lemma hide_id : forall kids c, Forall (fun k => wfs k = true) kids -> (length c <= length kids)%nat ->
+    hide kids c = c.
+  Proof.
+    intros kids c Hall Hlen. unfold hide.
+    assert (E : forall ks cs, Forall (fun k => wfs k = true) ks -> (length cs <= length ks)%nat ->
+              map (fun ko : snode * option dnode => if guard_visible kids c [] (sguard (fst ko)) then snd ko else None)
+                  (combine ks cs) = cs).
+    { induction ks as [|k ks IH]; intros cs Hw Hl.
+      - destruct cs; [reflexivity | cbn in Hl; lia].
+      - destruct cs as [|od cs]; [reflexivity|]. cbn [combine map fst snd].
+        rewrite (wfs_guard_nil k (Forall_inv Hw)). cbn [guard_visible].
+        rewrite (IH cs (Forall_inv_tail Hw)); [reflexivity | cbn in Hl; lia]. }
+    apply E; assumption.
   Qed.
 
   Lemma filter_emit_self : forall ns k od, wfs k = true ->
@@ -538,7 +560,7 @@ Section View.
 
   Theorem xml_view_inverse : forall s e, wfs s = true -> wfd s e = true -> is_leaf s = false ->
     exists x, wtr2_doc nss enum_ids fmt_dec s e = Some x /\ doc_wf x = true /\
-              x2d_doc nss parse_dec false s x = Ok (pruned s e).
+              x2d_doc nss parse_dec false false s x = Ok (pruned s e).
   Proof.
     intros s e Hs He Hl. destruct s as [| m kids | m keys row]; [discriminate Hl | |].
     - destruct e as [|c|]; try discriminate He.
